@@ -144,6 +144,16 @@ def tasks_c11(tier, seed):
     return ts
 
 
+def tasks_c13(tier, seed):
+    return seq("c13", tier, shards=16) + IX_TASKS(tier)
+
+
+def IX_TASKS(tier):
+    if tier == "quick":
+        return explore("IX1", "", 2, shards=2, timeout="100s")
+    return explore("IX1", "", -1, shards=8, timeout="30m")
+
+
 def tasks_c16(tier, seed):
     """Every schedule explored here runs under the race detector with the scheduler's own hand-offs hidden (DESIGN.md 2.3)."""
     ts = []
@@ -213,6 +223,10 @@ PLANS = {
                             "client programs are the enumerated scenarios; they only make calls the documentation permits"]},
     "C11": {"tasks": tasks_c11, "level": "model_checking",
             "assumptions": ["a BadgerDB call made by a controlled thread is one atomic step (BadgerDB itself is assumed linearizable)", "keylock and mockstore's RWMutex are scheduler objects"]},
+    "C13": {"tasks": tasks_c13, "level": "model_checking",
+            "assumptions": ["index keys are NUL-free", "BadgerDB calls are atomic steps"]},
+    "C14": {"tasks": tasks_c13, "level": "model_checking",
+            "assumptions": ["same enumeration as C13; the query-handler path over a Service is covered by the c14h check"]},
     "C03": {"tasks": tasks_c03, "level": "model_checking",
             "assumptions": ["Shutdown is called from outside callbacks", "envnats models the connection"]},
 }
@@ -249,6 +263,12 @@ MANIFEST_TEXT = {
     "C11": {"engine": E1, "technique": "bounded-exhaustive operation histories against a map model + stateless model checking of 2-3 contending threads with a porcupine linearizability check on every execution",
             "level": "Sequential: every well-formed history up to the depth bound for mockstore and four badgerstore configurations, compared step by step with a Go map and the expected callback list. Concurrent: every interleaving (preemption bound 2, 3 thorough) of three small transaction programs on colliding ids; each execution's call/return history is checked with porcupine against a per-id register model, plus a lock-exclusion monitor, callback thread/count/chain checks and the final content.",
             "note": "BadgerDB internals run uninstrumented; binary-marshalled value types are not exercised (see DESIGN.md)."},
+    "C13": {"engine": "seq", "technique": "bounded-exhaustive mutation histories on the real badgerstore + QueryStore under the scheduler, every query compared with a sorted/filtered/windowed scan of a model map; Flush race explored by the scheduler",
+            "level": "Every mutation history up to the depth bound over 3 ids and 8 key vectors (two indexes, nil keys), with and without store prefix; 16 basic queries after every history and the full 1344-query set on every distinct content of depth<=2, compared with the reference scan; plus an interleaving exploration of mutations racing with Flush and Query.",
+            "note": "taskqueue is a scheduler object; BadgerDB runs uninstrumented."},
+    "C14": {"engine": "seq", "technique": "same enumeration as C13 with a callback oracle: OnQueryChange count per mutation, query results inside the callback, Events() against before/after reference results",
+            "level": "For every mutation of every enumerated history: query-change callbacks fire exactly once iff an index key changed and after the index reflects it (queries issued inside the callback equal the post-state reference), Events reports affected whenever the reference result differs and unaffected when neither key matches; the QueryHandler path is run on a real Service for ordinary and query resources.",
+            "note": "Five probe queries per mutation (both indexes, prefixes, filter, window)."},
     "C15": {"engine": E1, "technique": "stateless model checking of the implementation with a virtual clock: preemption-bounded DFS over interleavings of query requests, expiry and callbacks",
             "level": "Every interleaving (up to the bound) of a query event with 0-2 requesters (valid, empty, missing and malformed queries), every callback behaviour, subscription failure, a concurrent callback of the same group and a chain of three events; the timer fires at any point; responses, nil-call count/order, group serialisation and released resources are checked on every execution.",
             "note": "The in-memory connection models acceptance/arrival of messages separately; inbox names are canonicalised."},
